@@ -320,6 +320,11 @@ def run(prog, rep):
                       "%s writes to %s" % (fn, fx.text(arg)), where(cf, c), witness="the input file is overwritten")
         if fn in ("odml.load", "fileio.load", "VersionConverter", "tools.converters.version_converter.VersionConverter"):
             rep.check(fx.text(c.args[0]) == inp, "FC-1", "_convert_file: %s reads input_path" % fn, "ok", "%s is applied to %s" % (fn, fx.text(c.args[0])), where(cf, c))
+    from ..report import import_verdicts
+    import_verdicts(prog, rep, "C16", ("ERR-1", "ROOT-2"), "PROBE-1",
+                    "odmlconvert and odmltordf decide with odml.load whether a file is already current: the readers refuse another format "
+                    "version by raising in strict and in lenient mode alike; a version error that the lenient reader only records makes the "
+                    "tools skip an outdated file without output")
     rep.assume("tempfile.mkdtemp creates a new, empty directory; os.path.join/splitext/basename are pure")
 
 
